@@ -36,6 +36,12 @@ CHECKS = {
             "adds) are validated slot by slot and row by row.",
             "rows carry a unique tag in every leaf; sampling outcomes are validated by membership, never by value.",
             "DESIGN.md section 4 C06"),
+    "C05": ("TLA+ OffPolicy collector spec: TLC exhaustive + trace validation of real DQN/SAC collection (C2S)",
+            "TLC checks OffPolicy.tla (per-step collector, warm-up, per-stream replay ring) against the declarative sentences of C05 "
+            "on small configurations; every stored row and every ring position of real DQN/SAC runs (reset + iterations, 1..3 "
+            "environments, wrapper stacks, box policies leaving the bounds) is validated clause by clause per environment stream.",
+            "training is stubbed through the public dqn_train/sac_train hooks; ring mechanics are C06.",
+            "DESIGN.md section 4 C05"),
 }
 
 PENDING_REASON = "check not built yet in this round (planned: see DESIGN.md section 4); not claimed until its machinery exists"
